@@ -112,3 +112,15 @@ def draw_value(ch, t):
         x = n / float(d)
         return _f32(x) if t == F32 else _f64(x)
     return ch.bits(bits)
+
+
+def is_snan(t, v):
+    if t == F32:
+        return (v & 0x7f800000) == 0x7f800000 and (v & 0x007fffff) != 0 and not (v & 0x00400000)
+    if t == F64:
+        return (v & 0x7ff0000000000000) == 0x7ff0000000000000 and (v & 0x000fffffffffffff) != 0 and not (v & 0x0008000000000000)
+    return False
+
+
+def quiet(t, v):
+    return v | (0x00400000 if t == F32 else 0x0008000000000000)
